@@ -43,7 +43,12 @@ func getCompWorld(c *engine.Chooser, s circ.CKKSSpec) *compWorld {
 	kgen := rlwe.NewKeyGenerator(b.Params)
 	w := &compWorld{CKKS: b, slots: b.Params.MaxSlots()}
 	// relinearization + complex conjugation (minimax.Evaluator cleans the imaginary part with it)
-	w.evk = rlwe.NewMemEvaluationKeySet(kgen.GenRelinearizationKeyNew(b.Sk), kgen.GenGaloisKeyNew(b.Params.GaloisElementForComplexConjugation(), b.Sk))
+	// (the conjugate-invariant ring has real slots and no conjugation)
+	var gks []*rlwe.GaloisKey
+	if !s.CI {
+		gks = append(gks, kgen.GenGaloisKeyNew(b.Params.GaloisElementForComplexConjugation(), b.Sk))
+	}
+	w.evk = rlwe.NewMemEvaluationKeySet(kgen.GenRelinearizationKeyNew(b.Sk), gks...)
 	w.tmpl = ckks.NewEvaluator(b.Params, w.evk)
 	compWorlds[s.String()] = w
 	return w
